@@ -287,9 +287,13 @@ func run(c *vlib.Check, v vcase) {
 	}
 	beta, err := vrf.VerifyAndHash(v.pk, v.proof, v.msg)
 	okVH := err == nil
-	c.Eval(v.Class, outcome(err))
 	okV, errV := vrf.Verify(v.pk, v.proof, v.out, v.msg)
 	okV = okV && errV == nil
+	if strings.HasPrefix(v.Key, "wrong-expected-output") {
+		c.Eval(v.Class, map[bool]string{true: "accept", false: "reject:output-mismatch"}[okV])
+	} else {
+		c.Eval(v.Class, outcome(err))
+	}
 	if v.Want {
 		if !okVH {
 			c.Violation("VerifyAndHash|"+v.Key, fmt.Sprintf("%s: genuine triple rejected: %v", v.Class, err), rp())
